@@ -37,6 +37,11 @@ def chain(ctx, d, b0, kw, case, canonical, keyname):
     except Exception as e:
         ctx.count("inputs_rejected_with_foreign_exception")     # C06's subject
         return None
+    try:
+        norm(v1)                # deferred (lazy) members are parsed now: a lazy parse accepts only once they all can be read
+    except Exception:
+        ctx.count("inputs_rejected_once_deferred_members_are_read")
+        return None
     ctx.count("inputs_accepted")
     try:
         b1 = d.build(v1, **kw)
@@ -260,6 +265,10 @@ def run(ctx):
                                                                                       ["Sequence", [[None, ["name", "Byte"]], [None, ["name", "Int16ub"]]]]]], False]], ["t", ["name", "Byte"]]]],
          [b"\x09\x03\x01\x02\x03\x07", b"\x09\x03\x01\x01\x41\x07", b"\x09\x04\x01\x02\x03\x04\x07"]),
         (["BitStruct", [["a", ["name", "Flag"]], [None, ["Padding", 3]], ["b", ["name", "Nibble"]]]], [bytes([x]) for x in range(256)]),
+        # streamed bit regions: a repeated field whose width does not divide the data, alone and in front of a tail field
+        (["Bitwise", ["GreedyRange", ["BitsInteger", 3, False, False]]], [b"\xff", b"\xff\x00", b"\xa5\x5a\xff", b"", b"\x01\x02\x03\x04"]),
+        (["Bitwise", ["Struct", [["xs", ["GreedyRange", ["BitsInteger", 3, False, False]]], ["tail", ["BitsInteger", 2, False, False]]]]], [bytes([x]) for x in range(0, 256, 7)] + [b"\xff\xff", b"\x12\x34\x56"]),
+        (["Bitwise", ["Struct", [["a", ["name", "Nibble"]], ["o", ["Optional", ["BitsInteger", 12, False, False]]], ["b", ["name", "Nibble"]]]]], [b"\x5a", b"\x5a\xbc", b"\x5a\xbc\xde", b"\x5a\xbc\xde\xf0"]),
     ]
     for i, (r, ins) in enumerate(classics):
         if not ctx.mine(i):
